@@ -1,4 +1,6 @@
 import PallasVerif.Model.Kes
+import PallasVerif.Props.C10
+import PallasVerif.Gen.KesConsts
 /-!
 # C12 — KES keys sign verifiably for exactly their current period   (partial)
 
@@ -22,6 +24,10 @@ bound at 7 — for every seed, period and message:
   (`sym_hashInj`, `sym_sigIdeal`, `sym_leavesDistinct`, `sym_baseCorrect`), so the theorems are not
   vacuous and hold unconditionally there (`sym_verify_iff`, `sym_cverify_iff`);
 * `sumSig_bytes_roundtrip`, `cSig_bytes_roundtrip` — signatures round-trip through bytes.
+* `gen_unknowns`, `gen_constants`, `gen_sizes`, `gen_instantiations` — the size formulas, constants and the
+  macro instantiation chain *regenerated from the pallas sources on every run* (`lib/translate_kes.py` →
+  `Gen/KesConsts.lean`) are the model's; `keyBytes_length` / `skBytes_length` — the model's key buffer has
+  `32 + 96·d (+ 4)` bytes at every period.
 
 Not proved: the hypotheses for the concrete BLAKE2b/Ed25519 instance (they are cryptographic
 assumptions), and that the byte layout `keyBytes` is what the Rust slices hold — the latter is
@@ -403,6 +409,70 @@ theorem cSig_bytes_roundtrip (d : Nat) (sg : CSig conc) (h : CShape d sg) :
       have e2 : (cSigBytes sg ++ pk).drop (96 + 32 * d) = pk := by
         rw [List.drop_append_of_le_length (by omega), List.drop_of_length_le (by omega), List.nil_append]
       simp only [cSigOfBytes, cSigBytes, hlen, ↓reduceIte, e1, e2, ih sg h1, Option.map_some]
+
+/-! ## sizes: generated from the sources (tie A) and of the model's buffers -/
+
+theorem gen_unknowns : PallasVerif.Gen.KesConsts.unknowns = [] := by decide
+
+theorem gen_constants : PallasVerif.Gen.KesConsts.individualSecretSize = 32 ∧ PallasVerif.Gen.KesConsts.sigmaSize = 64 ∧
+    PallasVerif.Gen.KesConsts.publicKeySize = 32 ∧ PallasVerif.Gen.KesConsts.seedSize = 32 := by decide
+
+/-- the `const SIZE` formulas written in the two macros are the model's sizes, for every depth -/
+theorem gen_sizes (d : Nat) :
+    PallasVerif.Gen.KesConsts.keySizeSum d = keySize d ∧ PallasVerif.Gen.KesConsts.keySizeCompact d = keySize d ∧
+    PallasVerif.Gen.KesConsts.sigSizeSum d = sumSigSize d ∧ PallasVerif.Gen.KesConsts.sigSizeCompact d = cSigSize d := by
+  simp only [PallasVerif.Gen.KesConsts.keySizeSum, PallasVerif.Gen.KesConsts.keySizeCompact,
+    PallasVerif.Gen.KesConsts.sigSizeSum, PallasVerif.Gen.KesConsts.sigSizeCompact,
+    PallasVerif.Gen.KesConsts.individualSecretSize, PallasVerif.Gen.KesConsts.publicKeySize,
+    PallasVerif.Gen.KesConsts.sigmaSize, keySize, sumSigSize, cSigSize]
+  omega
+
+def chainEntry (compact : Bool) (k : Nat) : String × String × String × String × Nat × Bool :=
+  let c := if compact then "Compact" else ""
+  (s!"Sum{k}{c}Kes", s!"Sum{k}{c}KesSig", s!"Sum{k - 1}{c}Kes", s!"Sum{k - 1}{c}KesSig", k, compact)
+
+/-- the macro invocations are exactly depth k on top of depth k−1 of the same construction, k = 1..7 -/
+theorem gen_instantiations :
+    PallasVerif.Gen.KesConsts.instantiations =
+      (List.range 7).map (fun i => chainEntry false (i + 1)) ++ (List.range 7).map (fun i => chainEntry true (i + 1)) := by
+  decide +kernel
+
+theorem leBytes_len (w n : Nat) : (PallasVerif.Ed25519.leBytes w n).length = w := by
+  induction w generalizing n with
+  | zero => rfl
+  | succ w ih => simp [PallasVerif.Ed25519.leBytes, ih]
+
+theorem conc_pk_length (d : Nat) (s : Bytes) : (pkTree conc d s).length = 32 := by
+  cases d with
+  | zero =>
+    show (PallasVerif.Ed25519.publicKey s).length = 32
+    simp [PallasVerif.Ed25519.publicKey, PallasVerif.Ed25519.pkOf, PallasVerif.Ed25519.ed, PallasVerif.Ed25519.encode, leBytes_len]
+  | succ d =>
+    rw [pkTree_succ]
+    exact PallasVerif.Props.C10.blake2b_length 32 _ (by decide)
+
+theorem conc_split_length (s : Bytes) : (conc.split s).1.length = 32 ∧ (conc.split s).2.length = 32 :=
+  ⟨PallasVerif.Props.C10.blake2b_length 32 _ (by decide), PallasVerif.Props.C10.blake2b_length 32 _ (by decide)⟩
+
+/-- **the key buffer of a depth-`d` key has `32 + 96·d` bytes at every period** (+ 4 for the period) -/
+theorem keyBytes_length (d : Nat) (s : Bytes) (t : Nat) (hs : s.length = 32) :
+    (keyBytes (keyAt conc d s t)).length = keySize d := by
+  induction d generalizing s t with
+  | zero => simpa [keyAt, keyBytes, keySize] using hs
+  | succ d ih =>
+    obtain ⟨h1, h2⟩ := conc_split_length s
+    have p1 := conc_pk_length d (conc.split s).1
+    have p2 := conc_pk_length d (conc.split s).2
+    by_cases ht : t < 2 ^ d
+    · simp only [keyAt, ht, ↓reduceIte, keyBytes, List.length_append, ih _ _ h1, p1, p2, Option.getD_some, h2, keySize]
+      omega
+    · simp only [keyAt, ht, ↓reduceIte, keyBytes, List.length_append, ih _ _ h2, p1, p2, Option.getD_none,
+        List.length_replicate, keySize]
+      omega
+
+theorem skBytes_length (d : Nat) (s : Bytes) (t : Nat) (hs : s.length = 32) :
+    (skBytes { depth := d, key := keyAt conc d s t, period := t }).length = keySize d + 4 := by
+  simp [skBytes, keyBytes_length d s t hs, be32]
 
 /-! ## non-vacuity examples (depth 2, symbolic) -/
 
